@@ -77,6 +77,14 @@ RVStep(P, s) ==
         ELSE LET r == IF op = "ADD" THEN AddV(x, y) ELSE IF op = "SUB" THEN SubV(x, y) ELSE MulV(x, y)
              IN IF IsBad(r) THEN RFail(s, IF r.why = "arithmetic on undefined value" THEN "undef" ELSE "value", r.why)
                 ELSE RNext1(RVSet(s, i.a[1].r, r))
+  ELSE IF op \in {"SLLI", "SRLI", "SRAI", "AND", "OR", "XOR"} THEN    \* forms another instruction selection may use
+     LET x == RVGet(s, i.a[2].r) y == RVal(s, i.a[3])
+     IN IF IsJunk(x) \/ IsJunk(y) THEN RFail(s, "undef", op \o " on an undefined value")
+        ELSE IF x.t # "int" \/ y.t # "int" THEN RFail(s, "value", op \o " on non-integers")
+        ELSE IF op \in {"SLLI", "SRLI", "SRAI"} /\ (~SmallNat(y.w) \/ y.w[1] > 63) THEN RFail(s, "value", op \o " by a count outside 0..63")
+        ELSE RNext1(RVSet(s, i.a[1].r, IntV(
+               IF op = "SLLI" THEN Shl(x.w, y.w[1]) ELSE IF op = "SRLI" THEN Shr(x.w, y.w[1]) ELSE IF op = "SRAI" THEN Sar(x.w, y.w[1])
+               ELSE IF op = "AND" THEN BitAnd(x.w, y.w) ELSE IF op = "OR" THEN BitOr(x.w, y.w) ELSE BitXor(x.w, y.w))))
   ELSE IF op = "LI" THEN RNext1(RVSet(s, i.a[1].r, IntV(i.a[2].w)))
   ELSE IF op = "LA" THEN RNext1(RVSet(s, i.a[1].r, CodeV(i.a[2].l, 0)))
   ELSE IF op = "MV" THEN RNext1(RVSet(s, i.a[1].r, RVGet(s, i.a[2].r)))
